@@ -292,6 +292,7 @@ func checkC05(w *World, r *Report) {
 	r.rule("C05.site", "every instruction that can panic in the call closure of READ, READWithPreamble, reader.Read_str, the read-string builtin and PRINT is guarded; parameters the documentation allows to be nil (cursor, placeholder table, environment) are tracked as may-nil through every call")
 	// the reader looks constructors up in an environment other evaluations may be writing: an unlocked read of
 	// the environment's map is not an error value but a fatal "concurrent map read and map write"
+	scannerErrorRule(w, r, "C05.scanner-errors")
 	r.rule("C05.env-lock", "every access to Env.data reachable by the reader holds that environment's lock (shared with C11.data): the lock-free *NT methods are only called with the lock held")
 	guardRule(w, r, e, "C05.env-lock", guardTable[2])
 	r.floor("C05.env-lock", "accesses to Env.data and calls of lock-required methods", r.count("C05.env-lock"), 10)
